@@ -4,6 +4,7 @@ use std::str::FromStr;
 
 use serde::Deserialize;
 use serde::Serialize;
+use tako::Set;
 
 use crate::common::arrayparser::parse_array;
 
@@ -95,6 +96,18 @@ impl IntArray {
     #[inline]
     pub fn contains(&self, id: u32) -> bool {
         self.ranges.iter().any(|range| range.contains(id))
+    }
+
+    /// Returns an id that is contained in the array more than once (if there is such an id).
+    /// Arrays created by the parser never have overlapping ranges,
+    /// but it does not hold for arrays deserialized from a message.
+    pub fn find_duplicate(&self) -> Option<u32> {
+        if self.ranges.len() < 2 {
+            // Ids of a single range are always unique
+            return None;
+        }
+        let mut ids = Set::new();
+        self.iter().find(|id| !ids.insert(*id))
     }
 }
 
